@@ -1,10 +1,10 @@
 (* Properties_C13.v — C13: callback registrations have exactly one owner and end
-   when that owner does.  PARTIAL: the registry/lifecycle part is proved for all
-   histories (C13_registry_all_histories); the owner/key/slot agreement is stated
-   here on computed histories only and otherwise decided by the exhaustive
-   correspondence of histories (see DESIGN.md); the unbounded induction over owner
-   histories is not proved. *)
-From RLBoxV Require Import World World_proofs.
+   when that owner does.  The owner/key/slot agreement is proved for EVERY history over any
+   number of sandboxes, owners and functions that does not destroy a sandbox
+   (C13_owners_agree_all_histories); histories that destroy and re-create a sandbox meet known
+   finding D12 (kept as a refuted statement under C14) and are decided by the correspondence of
+   histories; the registry/lifecycle part holds for all histories. *)
+From RLBoxV Require Import World World_proofs World_owner_proofs.
 Local Open Scope Z_scope.
 
 Theorem C13_registry_all_histories : forall ops nsb nslots nown w xs,
@@ -15,6 +15,22 @@ Proof.
   destruct (wrun_rinv _ ops _ w xs (rinv_init nsb nslots nown) H) as (A & B & _). split; assumption.
 Qed.
 Print Assumptions C13_registry_all_histories.
+
+(* the full agreement: after any history of register / unregister / owner destruction / move construction /
+   move assignment (onto empty or live owners) / create / lookups over any number of sandboxes and owners,
+   for every sandbox i and function k:
+   reachable from guest code (back-end slot table)  <->  in callback_keys  <->  held by a live owner;
+   no registration has two owners; no function occupies two entry points *)
+Theorem C13_owners_agree_all_histories : forall ops nsb nslots nown w xs,
+  forallb no_destroy ops = true ->
+  wrun code_move_assign_releases (world_init nsb nslots nown) ops = Ok (w, xs) ->
+  forall i k,
+    (In k (reachable w i) <-> In k (ckeys (get_sb w i))) /\
+    (In k (ckeys (get_sb w i)) <-> exists j, cb_owner_at w j = Some (i, k)) /\
+    (forall j j', cb_owner_at w j = Some (i, k) -> cb_owner_at w j' = Some (i, k) -> j = j') /\
+    NoDup (reachable w i).
+Proof. exact owners_agree. Qed.
+Print Assumptions C13_owners_agree_all_histories.
 
 (* registering a function that is already registered aborts; registration outside the window aborts;
    a full back-end table refuses *)
